@@ -40,6 +40,46 @@ PYVC_MODULES = [
     "contracts.fuselayout",
 ]
 
+# Dependency closure: a property also rests on the functions its anchored code CALLS.  A contract task is run
+# (and its obligations are reported) for every property listed in its own `props` and, in addition, for the
+# properties given here by task-name prefix -- e.g. reshape (C07) works by fusing and unfusing, so every
+# contract about fusing, the layout memo and the index classes is also an obligation of C07.  (Introduced after
+# seeded changes were caught by the right obligation attached to the wrong property.)
+FUSE_USERS = ["C02", "C05", "C06", "C07"]  # contraction through the fused path, fusing itself, reshape
+LABEL_USERS = ["C01", "C03", "C04", "C09", "C10", "C16"]  # everything that reads / combines odd-position labels
+EXTRA_PROPS = [
+    ("C05.calc_fuse_group_info", FUSE_USERS),
+    ("C05.calc_fuse_block_info", FUSE_USERS),
+    ("C05._fuse_core", FUSE_USERS),
+    ("C05.fuse.", FUSE_USERS),
+    ("C05.accum_for_split", FUSE_USERS),
+    ("C15.cached_fuse_block_info", FUSE_USERS + ["C15"]),
+    ("C01.BlockIndex", FUSE_USERS + ["C08", "C11"]),  # conj / copy_with of index trees (structural ops, bond indices)
+    ("C05.BlockIndex", FUSE_USERS + ["C08"]),
+    ("C06.drop_misaligned_sectors", ["C02", "C06"]),
+    ("C04.FermionicOperator", LABEL_USERS),
+    ("C10.oddpos_dag", LABEL_USERS),
+    ("C04.oddpos_parse", LABEL_USERS),
+    ("C04.resolve_combined_oddpos", LABEL_USERS),
+    ("C03.tensordot_fermionic", ["C03", "C04", "C09", "C10", "C14"]),
+    ("C10.dagger", ["C08"]),
+    ("C10.conj", ["C08"]),
+    ("C03.transpose", ["C08"]),
+    ("C11.svd.", ["C13"]),  # svd_truncated starts from svd
+    ("C11.svd_fermionic", ["C13"]),
+    ("C08.AbelianArray", ["C10"]),  # abelian conj / transpose underlie the fermionic ones
+]
+# frame analyses added per property in _ALL (immutable + key_covers for every user of the fuse machinery)
+
+
+def props_of(task_name, props):
+    out = list(props)
+    for prefix, extra in EXTRA_PROPS:
+        if task_name.startswith(prefix):
+            out += [p for p in extra if p not in out]
+    return out
+
+
 BASE = [A_BUILTINS, A_INT, A_TERM, A_NUMPY, A_BOUNDED, A_USER]
 
 
@@ -55,9 +95,10 @@ _ALL = {
         frames=['immutable', 'key_covers'],
     ),
     "C02": _p(
-        ["bounded.run_C02"],
+        ["bounded.run_C02", "bounded.run_history"],
         "other",
-        "Proof core: axes parsing / pairing bookkeeping obligations of the contraction code. Element-level equality with the dense contraction is numpy semantics and is decided by the bounded tier: exact comparison (integer data) against np.tensordot/np.einsum/np.trace on an independent densifier, all modes.",
+        "Proof core: axes parsing / pairing bookkeeping obligations of the contraction code, matmul axis convention and scalar unwrapping, the fused strategy's orchestration, sector alignment (rank 2), and -- by dependency closure -- every contract about fusing, the layout memo and the index classes (the fused path is a fuse / matmul / unfuse). Element-level equality with the dense contraction is numpy semantics and is decided by the bounded tier: exact comparison (integer data) against np.tensordot/np.einsum/np.trace on an independent densifier, all modes.",
+        frames=['immutable', 'key_covers'],
     ),
     "C03": _p(
         ["bounded.run_C03", "bounded.run_koszul"],
@@ -85,7 +126,8 @@ _ALL = {
     "C07": _p(
         ["bounded.run_C07"],
         "other",
-        "Proof core (rank-bounded, every size symbolic): the axis matcher calc_reshape_args returns, for every drop / merge / add-size-one recipe over shapes with <= 4 axes and for the trip back from the shape its own plan produces (merged axes block-sparse: 1 <= size <= product), a well-formed plan whose application gives exactly the requested shape, and the empty plan for a request of the current shape (the two known findings F16, F17 are the only refuted obligations; their solver inputs replay natively). The array-level content (norm, stored magnitudes, exact round trip of blocks) is numpy / fuse machinery: bounded tier, which also runs the matcher exhaustively over shapes with <=5 axes of sizes {1,2,3,4,6}.",
+        "Proof core (rank-bounded, every size symbolic): the axis matcher calc_reshape_args returns, for every drop / merge / add-size-one recipe over shapes with <= 4 axes and for the trip back from the shape its own plan produces (merged axes block-sparse: 1 <= size <= product), a well-formed plan whose application gives exactly the requested shape, and the empty plan for a request of the current shape (the two known findings F16, F17 are the only refuted obligations; their solver inputs replay natively). The array-level content (norm, stored magnitudes, exact round trip of blocks) is numpy / fuse machinery: bounded tier, which also runs the matcher exhaustively over shapes with <=5 axes of sizes {1,2,3,4,6}. By dependency closure (reshape works by fusing and unfusing) every contract about fusing, the layout memo and the index classes is also an obligation of this property.",
+        frames=['immutable', 'key_covers'],
     ),
     "C08": _p(
         ["bounded.run_C08"],
